@@ -29,7 +29,8 @@ Inductive local := LVtbl | LSlot | LStride | LDispatch.
 Inductive rexp :=
 | RLocal (l : local)
 | RVptrEmbedded                    (* arg._vptr() *)
-| RVptrLookup                      (* vptr<ArgType>(arg) *)
+| RVptrCall                        (* vptr<ArgType>(arg): a call of method::vptr, itself translated (wf_vptr) *)
+| RDynamicVptr                     (* Policy::dynamic_vptr(arg): the v-table pointer looked up from the argument's dynamic type *)
 | RSS (i : iexp)                   (* this->slots_strides[i] *)
 | RStaticSlot (i : iexp)           (* static_offsets<method>::slots[i] *)
 | RStaticStride (i : iexp)         (* static_offsets<method>::strides[i] *)
@@ -51,7 +52,7 @@ Inductive wstmt :=
 | WTail (f : fname) (va : option iexp) (dispatch : option rexp).
     (* return f<[va,] mp_rest<MethodArgList>, MoreArgTypes...>([dispatch,] more_args...); *)
 
-Record walkfns := { wf_uni : wstmt; wf_first : wstmt; wf_next : wstmt }.
+Record walkfns := { wf_uni : wstmt; wf_first : wstmt; wf_next : wstmt; wf_vptr : wstmt }.
 
 (* run-time values *)
 Inductive val :=
@@ -95,12 +96,30 @@ Section Interp.
   Definition as_ptr (v : val) : option Z :=
     match v with VPtr a => Some a | _ => None end.
 
-  (* arg: Some (v-table pointer of the current actual argument, is it a virtual_ptr) for a virtual argument *)
+  (* method::vptr<ArgType>(arg), translated: `if constexpr (is_virtual_ptr<ArgType>) return arg._vptr(); else return
+     Policy::dynamic_vptr(arg);` or whatever it is now.  Its body may only test CArgIsVirtualPtr and return the embedded or the
+     looked-up pointer; anything else is stuck.  arg: Some (v-table pointer of the actual, is the actual a virtual_ptr). *)
+  Variable fns : walkfns.
+  Fixpoint vptr_eval (arg : option (Z * bool)) (s : wstmt) : option val :=
+    match s with
+    | WIfc CArgIsVirtualPtr t e =>
+        match arg with
+        | Some (_, true) => vptr_eval arg t
+        | Some (_, false) => vptr_eval arg e
+        | None => None
+        end
+    | WReturn RVptrEmbedded => match arg with Some (vp, true) => Some (VPtr vp) | _ => None end
+    | WReturn RDynamicVptr => match arg with Some (vp, false) => Some (VPtr vp) | _ => None end
+    | WSeq WSkip t => vptr_eval arg t
+    | _ => None
+    end.
+
   Fixpoint reval (va : nat) (arg : option (Z * bool)) (f : frame) (e : rexp) : option val :=
     match e with
     | RLocal l => get_local f l
     | RVptrEmbedded => match arg with Some (vp, true) => Some (VPtr vp) | _ => None end
-    | RVptrLookup => match arg with Some (vp, false) => Some (VPtr vp) | _ => None end
+    | RDynamicVptr => match arg with Some (vp, false) => Some (VPtr vp) | _ => None end
+    | RVptrCall => vptr_eval arg (wf_vptr fns)
     | RSS i => match nth_error ss (ieval va i) with Some n => Some (VNat n) | None => None end
     | RStaticSlot i =>
         match statics with
@@ -193,7 +212,6 @@ Section Interp.
         end
     end.
 
-  Variable fns : walkfns.
   Definition body_of (g : fname) : wstmt :=
     match g with FUni => wf_uni fns | FMultiFirst => wf_first fns | FMultiNext => wf_next fns end.
 
